@@ -57,7 +57,7 @@ class Ctx:
 
 def setup(chk):
     c = Ctx()
-    c.mod = harness_module('h_thdm')
+    c.mod = harness_module('h_thdm_model')
     c.dem = demangled(c.mod)
     c.ex = executor(c.mod, RealDom(CONSTS), fork_select=False)
     c.ex.undefined_handler = ext_handler(c.dem)
